@@ -50,6 +50,29 @@ Definition call_apply_nonstatic (names : list string) (n : node) : bool :=
 Definition k_call_apply_nonstatic (names : list string) (prog : node) : bool :=
   any_node (call_apply_nonstatic names) prog.
 
+(** K5: an optional call whose callee is a member access reached through an EARLIER optional link of the same
+    chain, [o?.p.m?.(x)]: the callee [o?.p.m] is not itself an optional access (its last link is a plain [.m]) and
+    cannot be split without changing what the earlier short-circuit covers; when the chain is rewritten the callee is
+    captured as a whole and called without its receiver.  ([o?.m?.(x)], [(o.m)?.(x)] and [o.m?.(x)] keep it.) *)
+Fixpoint peel_paren_nodes (n : node) : node :=
+  match n with
+  | Node (K KParen _ _) [e] => peel_paren_nodes e
+  | _ => n
+  end.
+
+Definition optional_call_through_chain (n : node) : bool :=
+  match n with
+  | Node (K KOptChain _ _) [Node (Bln true) []; Node (K KCall _ _) (_ :: callee :: _)] =>
+      match peel_paren_nodes callee with
+      | Node (K KOptChain _ _) [Node (Bln false) []; Node (K KMember _ _) _] => true
+      | _ => false
+      end
+  | _ => false
+  end.
+
+Definition k_optional_call_through_chain (prog : node) : bool := any_node optional_call_through_chain prog.
+
 (** Names of the classes that apply to a program ([names] = configured method source names). *)
 Definition known_classes (names : list string) (prog : node) : list string :=
-  (if k_call_apply_nonstatic names prog then ["call-apply-nonstatic-path"] else []).
+  (if k_call_apply_nonstatic names prog then ["call-apply-nonstatic-path"] else []) ++
+  (if k_optional_call_through_chain prog then ["optional-call-through-chain"] else []).
